@@ -53,6 +53,35 @@ CLAIMED = {
              "signature text matching runs concretely on the enumerated axis names (its contract is C15/C13).",
         technique="contract-based deductive verification: symbolic execution of the real functions + z3 VCs",
     ),
+    "C09": dict(
+        category="proof",
+        text=("Deductive proof of the contract of the real Grid.cumsum for each of the 8 shifts x 3 rules x spellings: "
+              "out[j] = lead + sum of the inputs lying before target point j (running sum expressed with the assumed "
+              "prefix-sum contract of DataArray.cumsum), lead from the rule in force, dims/size/name; every other shift is "
+              "refused; several axes = one after another (relational proof on the real code); diff(cumsum(to=outer, fill 0)) "
+              "= identity (one unfolding of the prefix-sum recurrence); cumint = cumsum(data*metric) and its last value on "
+              "outer/right targets = integrate. Cell counts, extra dims, data and fill values universally quantified. "
+              "Order-independence over several axes is a BOUNDED stand-in (n<=3 per axis, all data) - not counted as proved."),
+        design_ref="DESIGN.md 7/C09",
+        note=COMMON_NOTE + "Assumed: DataArray.cumsum/sum are prefix sums (uninterpreted, canonical per element term). "
+             "Order independence for unbounded n needs the exchange of two finite sums (not proved here).",
+        technique="contract-based deductive verification: symbolic execution of the real functions + z3 VCs over an uninterpreted prefix-sum contract",
+    ),
+    "C11": dict(
+        category="proof",
+        text=("Deductive proof of the contracts of apply_as_grid_ufunc / GridUFunc / as_grid_ufunc with the user function "
+              "modelled as an uninterpreted recording function: for every catalogued signature (1-3 inputs, 1-2 outputs, 1-2 "
+              "dummy axes, rebinding to differently named real axes) and every way of supplying the options (call, Grid method, "
+              "decorator at definition, decorator at call, definition overridden at call, Annotated type hints) the function "
+              "receives each input with its signature axes last in signature order, each extended by exactly boundary_width with "
+              "the rule / fill value in force (all sizes, data, fill values symbolic), and the outputs carry the dims of the "
+              "bound real axes at the output positions with the values the function returned (padded afterwards when "
+              "pad_before_func=False)."),
+        design_ref="DESIGN.md 7/C11",
+        note=COMMON_NOTE + "Assumed xarray.apply_ufunc contract (core dims last in listed order, broadcast dims first). "
+             "Signature catalogue is an enumeration, not all signatures.",
+        technique="contract-based deductive verification: symbolic execution of the real functions with an uninterpreted user program + z3 VCs",
+    ),
 }
 
 NOT_YET = {}
